@@ -8,8 +8,8 @@ A_TABLES = ('compiler::build_dispatch_tables (grouping of classes by applicabili
 A_AUGMENT = ('compiler::augment_classes / calculate_covariant_classes / augment_methods are NOT under contract (unordered_map keyed by '
              'type_index, deque, std::sort, mark-and-sweep): cov is an arbitrary relation with the stated order axioms; '
              'update-time lookups of unregistered classes are not checked')
-A_INSTALL = ('compiler::install_gv (copy of tables / v-tables / slots and strides into the policy\'s dispatch data) is NOT under contract: '
-             'the layout invariant I_layout the resolve proofs assume is what it is documented to install')
+A_INSTALL = ('compiler::install_gv (copy of tables / v-tables / slots and strides into the policy\'s dispatch data) is checked BOUNDED only '
+             '(units/install: concrete registry shapes): the layout invariant I_layout the resolve proofs assume is established for those shapes, not proved in general')
 
 NOT_APPLICABLE = {
     'C08': 'inheritance inference is an mp11 metaprogram plus unordered_map / deque / std::sort code in augment_classes; '
@@ -39,7 +39,7 @@ PROPS = {
                       'by a partial evaluator - are proved to return exactly the cell selected by the groups of the virtual arguments, given the installed '
                       'layout. dynamic_vptr / publish_vptrs (vector with and without hash, map) deliver the dynamic class\'s v-table pointer. best(), the '
                       'cell-filling step and slot allocation are checked bounded.',
-        'level_note': 'that update builds tables and v-tables satisfying the layout invariant (build_dispatch_tables, install_gv) is assumed, not proved; '
+        'level_note': 'that update builds dispatch tables satisfying I_table (build_dispatch_tables) is assumed; install_gv (I_layout) is bounded only; '
                       'bounded parts are not proofs; STL semantics trusted',
         'design_ref': 'DESIGN.md section 6 C01',
         'unverified': [A_TABLES, A_AUGMENT, A_INSTALL],
@@ -83,7 +83,7 @@ PROPS = {
                       'bounded over EVERY inheritance DAG of <= 3/4 classes in every registration order: two (method, parameter) pairs that accept a class never '
                       'share a cell of its v-table and every cell lies inside it.',
         'level_note': 'slot allocation is bounded, not proved, and takes the lattice data as augment_classes computes it from COMPLETE base lists (incremental / split '
-                      'registrations are C08, not claimed); sizing and filling of the dispatch data (install_gv) assumed',
+                      'registrations are C08, not claimed); sizing and filling of the dispatch data (install_gv) is checked on concrete registry shapes (bounded)',
         'design_ref': 'DESIGN.md section 6 C04',
         'unverified': [A_INSTALL, A_AUGMENT, 'unordered_set iteration order in assign_lattice_slots: one order explored'],
         'assumptions': [],
